@@ -169,6 +169,15 @@ def gen_projects(rng, tier, n_quick=1500, n_thorough=20000):
         [("a", "package com.acme.\n   telemetry . /* x */ model; parcelable Sample {}"),
          ("b", "package p; import com.acme.telemetry.model.Sample; interface I { void f(in Sample s, in com . acme.telemetry.model . Sample t); }")],
         [("a", "package android.os;interface ParcelFileDescriptor{}"), ("b", "package p;import android.os.ParcelFileDescriptor;parcelable P{ParcelFileDescriptor a;android.os.ParcelFileDescriptor b;}")],
+        # types nested far deeper than the random stream goes (every level must be visited, found and resolved)
+        [("a", "package p;import q.Foo;parcelable P{" + "List<" * 12 + "Foo" + ">" * 12 + " a;" + "Map<String," * 11 + "Foo[]" + ">" * 11 + " b;Foo" + "[]" * 11 + " c;}"),
+         ("b", "package q;parcelable Foo{}")],
+        [("a", "package p;interface I{void f(in " + "List<" * 10 + "Map<String,Nope[]>" + ">" * 10 + " x, in List<Map<String,int[]>>" + "[]" * 10 + " y);}")],
+        # a recovered syntax error directly in front of a member that starts with an unknown / imported type (the syntax Error
+        # sits on the very token the type's name range covers)
+        [("a", "package p; interface I { void first()\n Bar second(); Known third() }"), ("b", "package p; parcelable Known {}")],
+        [("a", "package p; import q.Known; parcelable P { int a = {1, 2}\r\n XKnown b; Known c; }"), ("b", "package q; parcelable Known {}")],
+        [("a", "package p; interface I { void f() = 3\n Listing g(); const int K = 1 Nope h(); }")],
         # user types that share their simple name with a built-in, reached through a non-Android import or a forward declaration,
         # as container elements: the import / declaration decides what the name denotes
         [("a", "package p;parcelable ParcelableHolder;parcelable P{ParcelableHolder[] a;List<ParcelableHolder> b;Map<String,ParcelableHolder> c;}")],
@@ -557,7 +566,7 @@ def gen_known_malformed(rng, n):
     for i in range(n):
         d = gen.gen_doc(rng, opts={"pdoc": 0.0, "nmembers": rng.choice([1, 2, 3])})
         toks = [t.text for t in gen.tokens(d)]
-        fam = rng.choice(["kwname", "nopackage", "twoitems", "trailing", "kwmember", "kwpackage", "uniident", "uniident"])
+        fam = rng.choice(["kwname", "nopackage", "twoitems", "trailing", "kwmember", "kwpackage", "uniident", "uniident", "dotvalue"])
         if fam == "kwname":
             k = toks.index("{") - 1
             toks[k] = rng.choice(kw)
@@ -569,6 +578,13 @@ def gen_known_malformed(rng, n):
             toks = toks + [rng.choice(["x", ";", "}", "1", "@A", "package"])]
         elif fam == "kwpackage":
             toks[1] = rng.choice(kw)
+        elif fam == "dotvalue":
+            # a value must be a literal, a brace list or exactly Name.MEMBER: longer dotted paths, a trailing or doubled dot are not values
+            k = toks.index("{")
+            bad = rng.choice([["a", ".", "b", ".", "C"], ["pkg", ".", "E", ".", "X", ".", "Y"], ["E", "."], ["E", ".", ".", "X"], [".", "X"]])
+            toks = toks[:k + 1] + ["const", "int", "BADV", "="] + bad + [";"] + toks[k + 1:]
+            if "enum" in toks[:k]:
+                continue
         elif fam == "uniident":
             # a letter, digit or mark outside ASCII glued to an identifier (item, member, argument, type, package segment ...):
             # identifiers are ASCII, so the document is lexically malformed
@@ -637,6 +653,12 @@ def gen_C14(rng, tier):
     cases.append(c14_case("kf_enum_open_paren_first", eh, eg, 0, ["@X", "("], True, rng))
     cases.append(c14_case("nb_enum_closed_paren", eh, eg, 1, ["@X", "(", "B", ")", "=", "="], True, rng))
     cases.append(c14_case("nb_enum_no_paren", eh, eg, 1, ["@X", "="], True, rng))
+    # one member, very many errors: every second identifier restarts a member and is recovered again
+    long_ids = [w for j in range(30) for w in ("a%d" % j, "b%d" % j)]
+    cases.append(c14_case("long_member_iface", ["package", "p", ";", "interface", "I", "{"],
+                          [["void", "a", "(", ")", ";"], ["void", "c", "(", ")", ";"]], 1, long_ids, False, rng))
+    cases.append(c14_case("long_member_parc", ["package", "p", ";", "parcelable", "P", "{"],
+                          [["int", "a", ";"], ["int", "c", ";"]], 1, long_ids + ["x"], False, rng))
     ih = ["package", "p", ";", "interface", "I", "{"]
     ig = [["void", "a", "(", ")", ";"], ["void", "c", "(", ")", ";"], ["void", "d", "(", ")", ";"]]
     cases.append(c14_case("nb_iface_open_paren", ih, ig, 1, ["@X", "(", "B"], False, rng))
